@@ -1,5 +1,6 @@
 open Model
 open Base
+type string = Stdlib.String.t
 
 (* (c20 id class (q x..) (len n) (panic b)) *)
 let check (fields : sexp list) : verdict * string option =
